@@ -1088,6 +1088,11 @@ def run(prog, tier):
                     for n in ast.walk(values_[k]):
                         if isinstance(n, ast.Attribute) and isinstance(n.value, ast.Name) and n.value.id == "self":
                             roots.add(n.attr)
+                    # the stored count written as the length of the store it counts (C15.length-pair: they are equal after every step)
+                    v_k = values_[k]
+                    if k == "chain_length" and isinstance(v_k, ast.Call) and U(v_k.func) == "len" and len(v_k.args) == 1 \
+                            and U(v_k.args[0]).startswith("self.") and st.targets[0].attr == "chain_length":
+                        roots = {"chain_length"}
                     if len(roots) != 1:
                         continue
                     n_pairs += 1
@@ -1163,6 +1168,8 @@ def run(prog, tier):
             for n in ast.walk(v):
                 if isinstance(n, ast.Attribute) and isinstance(n.value, ast.Name) and n.value.id == "self":
                     saved_attrs.add(n.attr)
+            if k == "chain_length" and isinstance(v, ast.Call) and U(v.func) == "len" and len(v.args) == 1 and U(v.args[0]).startswith("self."):
+                saved_attrs.add("chain_length")
         # the parameter objects and the epsilon selector are persisted through their own pairs
         text = U(sfn)
         if "get_items(param_id" in text:
